@@ -297,6 +297,12 @@ def check_sketch_sizing(rep, fl, rule):
                   bad[0][0], bad[0][1], bad[0][2], bad[0][1]) if bad else "")
 
 
+def ws_all(b, w):
+    """Assignments to the place w in body b: (bi, si, value)."""
+    return [(bi, si, norm(b.rvalue_expr(st["rv"], True))) for bi in b.live_blocks() for si, st in enumerate(b.blocks[bi]["stmts"])
+            if st["k"] == "assign" and place_target(b, st["pl"]) == w]
+
+
 def check_tinylfu(rep, fl):
     facts = fl.facts
     dk = norm(F(V("self"), "doorkeeper"))
@@ -361,32 +367,37 @@ def check_tinylfu(rep, fl):
     at, entry = dataflow(tr)
     w = norm(F(V("self"), "w"))
     samples = norm(F(V("self"), "samples"))
-    ws = [(bi, si, norm(tr.rvalue_expr(st["rv"], True))) for bi in tr.live_blocks() for si, st in enumerate(tr.blocks[bi]["stmts"])
-          if st["k"] == "assign" and place_target(tr, st["pl"]) == w]
+    ws = [x for x in ws_all(tr, w) if x[2] != ("const", 0, "usize")]
     okw = len(ws) == 1 and ws[0][2] == norm(("bin", "Add", w, ("const", 1, "usize"))) and must_pass_through(tr, [ws[0][0]])
-    rs = calls_to(tr, TLFU + "::reset")
-    okr = len(rs) == 1
+    # the aging step (TinyLFU::reset is spliced into try_reset, core.ALWAYS_INLINE): w = 0, doorkeeper.reset(),
+    # ctr.reset(), all three exactly on the `w >= samples` edge, after the increment of w
+    zs = [(bi, si) for bi, si, e in ws_all(tr, w) if e == ("const", 0, "usize")]
+    dr = [(bi, t) for bi, t in calls_to(tr, BLOOM + "::reset") if norm(tr.call_args(t)[0]) == dk]
+    cr = [(bi, t) for bi, t in calls_to(tr, CMS + "::reset") if norm(tr.call_args(t)[0]) == ctr]
+    okr = len(zs) == 1 and len(dr) == 1 and len(cr) == 1 and okw
     if okr:
         want = ("not", ("atom", ("bin", "Lt", w, samples)))
-        sts = at.get((rs[0][0], term_idx(tr, rs[0][0])), set())
-        okr = all(feval(want, s) is True for s in sts)
-        # reset happens after the increment of w, and is mandatory on the >= edge
-        okr = okr and rs[0][0] in tr.reachable(ws[0][0]) if okw else False
+        acts = [(zs[0][0], zs[0][1]), (dr[0][0], term_idx(tr, dr[0][0])), (cr[0][0], term_idx(tr, cr[0][0]))]
+        for nk in acts:
+            # branch history: the test was taken before `w = 0` overwrote the variable it speaks about
+            good, cx = all_states(tr, at, nk, NOT(A(("bin", "Lt", w, samples))), hist=True)
+            okr = okr and good and nk[0] in tr.reachable(ws[0][0])
         for bi in tr.live_blocks():
             t = tr.term(bi)
             if t and t["k"] == "switch":
                 for tgt, atom, pol in edge_literals(tr, bi):
                     if atom == norm(("bin", "Lt", w, samples)) and pol is False:
-                        okr = okr and must_pass_through(tr, [rs[0][0]], from_bi=tgt)
-    rep.check(okw and okr, "R13.6", fl, tr, "try_reset", "w += 1 on every recording; reset exactly when w >= samples", "aging is not `w += 1; if w >= samples { reset }`")
-    # reset / clear
-    for meth, dkm, cm in (("reset", "reset", "reset"), ("clear", "clear", "clear")):
+                        okr = okr and all(must_pass_through(tr, [nk[0]], from_bi=tgt) for nk in acts)
+    rep.check(okw and okr, "R13.6", fl, tr, "try_reset", "w += 1 on every recording; exactly when w >= samples: w = 0, doorkeeper.reset(), ctr.reset()",
+              "aging is not `w += 1; if w >= samples { w = 0; doorkeeper.reset(); ctr.reset() }`")
+    # clear
+    for meth, dkm, cm in (("clear", "clear", "clear"),):
         b = facts.body(TLFU + "::" + meth)
-        ws = [(bi, norm(b.rvalue_expr(st["rv"], True))) for bi in b.live_blocks() for st in b.blocks[bi]["stmts"] if st["k"] == "assign" and place_target(b, st["pl"]) == w]
+        wsx = [(bi, norm(b.rvalue_expr(st["rv"], True))) for bi in b.live_blocks() for st in b.blocks[bi]["stmts"] if st["k"] == "assign" and place_target(b, st["pl"]) == w]
         d = calls_to(b, BLOOM + "::" + dkm)
         c = calls_to(b, CMS + "::" + cm)
-        ok = len(ws) == 1 and ws[0][1] == ("const", 0, "usize") and len(d) == 1 and len(c) == 1 and norm(b.call_args(d[0][1])[0]) == dk and norm(b.call_args(c[0][1])[0]) == ctr \
-            and must_pass_through(b, [d[0][0]]) and must_pass_through(b, [c[0][0]]) and must_pass_through(b, [ws[0][0]])
+        ok = len(wsx) == 1 and wsx[0][1] == ("const", 0, "usize") and len(d) == 1 and len(c) == 1 and norm(b.call_args(d[0][1])[0]) == dk and norm(b.call_args(c[0][1])[0]) == ctr \
+            and must_pass_through(b, [d[0][0]]) and must_pass_through(b, [c[0][0]]) and must_pass_through(b, [wsx[0][0]])
         rep.check(ok, "R13.6", fl, b, meth, "%s: w = 0, doorkeeper.%s(), ctr.%s()" % (meth, dkm, cm), "TinyLFU::%s does not reset w, the doorkeeper and the sketch" % meth)
     # increments -> increment per element
     b = facts.body(TLFU + "::increments")
